@@ -60,7 +60,7 @@ def gen(W):
     sc["pos"] = W.draw(3)
     sc["nonstr"] = W.choice(["bytes", "int", "none"])
     sc["hop"] = W.choice(HOP)
-    sc["channel"] = W.choice(["first_call", "exc_info_recall", "mutate_after"])
+    sc["channel"] = W.choice(["first_call", "exc_info_recall", "mutate_after", "mutate_item_after", "swallow_refusal"])
     sc["index"] = W.draw(max(1, len(hdrs)))
     sc["body"] = W.choice([7, 0, 300])
     sc["declare_cl"] = W.chance(0.6)
@@ -151,6 +151,21 @@ class App:
                     raise ValueError("recall")
                 except ValueError:
                     start_response(status, hdrs, sys.exc_info())
+            elif sc["channel"] == "swallow_refusal":
+                # the application (or a middleware) catches the refusal and carries on
+                try:
+                    start_response(status, hdrs)
+                except BaseException as e:  # noqa
+                    self.raised = type(e).__name__
+            elif sc["channel"] == "mutate_item_after":
+                # header items given as (mutable) lists and changed after the call
+                items = [list(x) for x in benign]
+                start_response("200 OK", items)
+                extra = [x for x in hdrs if x not in benign]
+                for x in extra:
+                    if items and isinstance(x[0], str) and isinstance(x[1], str):
+                        items[0][0], items[0][1] = x[0], x[1]
+                        break
             else:
                 lst = list(benign)
                 start_response("200 OK", lst)
@@ -181,7 +196,8 @@ def run_one(tapes, tier, scenario=None):
     sim.add_client([("send", build_request("GET", "/", sc["version"], [("Host", "s")]))], cid=0)
     sim.run()
     status, hdrs, must, desc = build_hostile(sc)
-    if sc["channel"] == "mutate_after":
+    if sc["channel"] in ("mutate_after", "mutate_item_after", "swallow_refusal"):
+        # what counts here is that nothing refused (or never validated) reaches the wire; a 500 is not prescribed
         must = False
     s = sim.conns.get(0)
     wire = bytes(s.wire)
@@ -212,7 +228,22 @@ def run_one(tapes, tier, scenario=None):
         if r.status != 500:
             # line-level comparison
             want = [(n_, v_) for n_, v_ in hdrs if isinstance(n_, str) and isinstance(v_, str)]
-            if sc["channel"] == "mutate_after":
+            if sc["channel"] == "swallow_refusal" and app.raised is not None:
+                # the call was refused and the application carried on regardless: the element that made the
+                # server refuse must not be on the wire (bare CR/LF is checked above for every line)
+                late = []
+                benign_l = [tuple(h) for h in sc["headers"]]
+                for n_, v_ in [x for x in want if x not in benign_l]:
+                    line_ = ("%s: %s" % (n_, v_)).lower().encode("latin-1", "replace")
+                    if n_.lower() in SERVER_FIELDS:
+                        continue  # the server adds its own Connection / Transfer-Encoding ... lines
+                    if any(ln.lower() == line_ for ln in lines[1:]):
+                        res.v("refused_string_emitted", tag, "the header of the refused start_response call is on the wire: %r" % ((n_, v_),))
+                if sc["hostile"] == "char_status" and isinstance(status, str) and lines[0].decode("latin-1").endswith(status):
+                    res.v("refused_string_emitted", tag + ":status", "the refused status string is on the wire: %r" % (status,))
+                # whatever else is emitted must be server fields or fields of the (not stored) call - i.e. nothing
+                want = []
+            if sc["channel"] in ("mutate_after", "mutate_item_after"):
                 benign = [tuple(h) for h in sc["headers"]]
                 late = [x for x in want if x not in benign]
                 want = list(benign)  # what start_response was actually given
@@ -246,10 +277,10 @@ def run_one(tapes, tier, scenario=None):
                     res.v("late_mutation_emitted", tag, "a header appended to the list after start_response returned was emitted: %r" % (text[:100],))
                     continue
                 res.v("foreign_line", tag, "head line %r is neither an application field nor a server field; application fields %r" % (ln[:120], want[:6]))
-            if remaining and sc["channel"] != "mutate_after":
+            if remaining and sc["channel"] not in ("mutate_after", "mutate_item_after") and not (sc["channel"] == "swallow_refusal" and app.raised is not None):
                 res.v("field_lost", tag, "application fields missing from the head: %r; head %r" % (remaining[:4], head[:300]))
             st_line = lines[0].decode("latin-1")
-            exp_status = status if sc["channel"] != "mutate_after" else "200 OK"
+            exp_status = status if sc["channel"] not in ("mutate_after", "mutate_item_after") and not (sc["channel"] == "swallow_refusal" and app.raised is not None) else None
             if isinstance(exp_status, str) and st_line != "HTTP/%s %s" % (r.version, exp_status):
                 res.v("status_line", tag, "status line %r, application said %r" % (st_line, exp_status))
     lp = common.log_problems(sim, patterns=("uncaptured python exception", "Exception when servicing"))
